@@ -173,6 +173,13 @@ def run_rdp(pts, eps):
         return None, type(e).__name__
 
 
+def as_given(pts):
+    """A profile whose coordinates are all whole numbers is handed over as Python ints (a list of int pairs is a legal way to write it)."""
+    if all(float(x).is_integer() and float(y).is_integer() for x, y in pts):
+        return [[int(x), int(y)] for x, y in pts]
+    return [list(p) for p in pts]
+
+
 def run_pw(args):
     pts, hot, eps = args
     import warnings
@@ -180,7 +187,7 @@ def run_pw(args):
     from OpenPinch.utils.stream_linearisation import get_piecewise_data_points
     t0 = time.time()
     try:
-        out = get_piecewise_data_points([list(p) for p in pts], hot, eps)
+        out = get_piecewise_data_points(as_given(pts), hot, eps)
         return [(float(a), float(b)) for a, b in out], None, time.time() - t0
     except Exception as e:  # noqa: BLE001
         return None, f"{type(e).__name__}: {e}", time.time() - t0
@@ -382,6 +389,9 @@ CORPUS_PW = [
     ([(0.0, 0.0), (1.0, 3.0), (2.0, 0.0)], True, 0.5),                   # D7 pin through the public entry point
     ([(0.0, 0.0), (1.0, 1.0), (2.0, 2.0), (3.0, 3.0)], False, 0.5),
     ([(4.0, 8.0), (3.0, 4.5), (2.0, 2.0), (1.0, 0.5), (0.0, 0.0)], False, 0.125),   # concave for a cold stream: chord below
+    # whole-number profiles (handed over as Python ints) with a tolerance below 1: a vertex 0.8 from the chord must be kept
+    ([(0.0, 100.0), (10.0, 104.0), (20.0, 109.0), (30.0, 112.0), (40.0, 116.0)], False, 0.5),
+    ([(40.0, 116.0), (30.0, 113.0), (20.0, 108.0), (10.0, 105.0), (0.0, 100.0)], True, 0.25),
 ]
 # RDP keeps 12 of these 13 points, so the SLSQP refinement runs: it returns break points at enthalpy -1.9e7 (open finding)
 CORPUS_PW_REFINED = [
